@@ -5,7 +5,7 @@ from fractions import Fraction
 
 import re
 
-from .. import util
+from .. import util, zones
 from ..absint import tstr, mk_int, subterms
 from ..core import Anchor
 
@@ -398,6 +398,14 @@ def check(col, prog, tier, profile, fixture=None):
                         good = good and len(sw) == 1 and len(nx) == 1 and not other and sw[0].args[0] == ("ref", uv) and sw[0].args[1] == i_ and sw[0].args[2] == nx[0].res and nx[0].args[1] == ("rangeincl", mk_int(0), i_)
                     v_shape.append(good)
                 rngok, shape_ok = bool(v_rng) and all(v_rng), bool(v_shape) and all(v_shape)
+        # every returning path walks 1..len: one that leaves before the loop (`if v.len() == 2 { return; }`) may only be a slice
+        # with nothing to rearrange (len <= 1)
+        lenv = ("len", ("load", ("m0",), vpl))
+        for st_ in I.final_states:
+            evs_ = st_.event_list()
+            if not any(e.kind == "loop" for e in evs_) and not any(e.kind == "call" and e.extra.get("name") == "for_each" for e in evs_) and not any(e.kind == "call" and e.extra.get("inlined") for e in evs_):
+                if not zones.entails(st_.facts, "Le", lenv, mk_int(1), I.tys):
+                    rngok = False
         if rngok:
             col.ok("A2" + sfx, shuffle.loc(), "%s|loop-1..len" % fk(shuffle), "i ranges over 1..len")
         else:
